@@ -270,7 +270,19 @@ class TorchDistribution:
         :return: Log probability of the action.
         :rtype: torch.Tensor
         """
-        _action = action if not self.squash_output else self.sampled_action
+        _action = action
+        if self.squash_output:
+            if (
+                self.sampled_action is not None
+                and self.sampled_action.shape == action.shape
+                and torch.equal(torch.tanh(self.sampled_action), action)
+            ):
+                # The action just sampled: its pre-squash value is known exactly
+                _action = self.sampled_action
+            else:
+                # A stored action: invert the squashing
+                eps = torch.finfo(action.dtype).eps
+                _action = torch.atanh(action.clamp(-1.0 + eps, 1.0 - eps))
 
         log_prob = self._handler.log_prob(self.distribution, _action)
 
